@@ -139,6 +139,7 @@ func CopyExpr(node ast.Expr) (ast.Expr, bool) {
 		if !ok {
 			return nil, false
 		}
+		cp.Indices = make([]ast.Expr, len(node.Indices))
 		for i, v := range node.Indices {
 			cp.Indices[i], ok = CopyExpr(v)
 			if !ok {
@@ -243,6 +244,11 @@ func Equal(a, b ast.Node) bool {
 	if reflect.TypeOf(a) != reflect.TypeOf(b) {
 		return false
 	}
+	// Optional children (a field's tag, a function type's results) are nil pointers of a
+	// concrete node type, which the comparisons with nil above do not catch.
+	if va, vb := reflect.ValueOf(a), reflect.ValueOf(b); va.Kind() == reflect.Pointer && (va.IsNil() || vb.IsNil()) {
+		return va.IsNil() && vb.IsNil()
+	}
 
 	switch a := a.(type) {
 	case *ast.BasicLit:
@@ -330,6 +336,9 @@ func Equal(a, b ast.Node) bool {
 	case *ast.FuncLit:
 		// TODO(dh): support function literals
 		return false
+	case *ast.FuncType:
+		b := b.(*ast.FuncType)
+		return Equal(a.TypeParams, b.TypeParams) && Equal(a.Params, b.Params) && Equal(a.Results, b.Results)
 	case *ast.ChanType:
 		b := b.(*ast.ChanType)
 		return a.Dir == b.Dir && (a.Arrow == token.NoPos && b.Arrow == token.NoPos || a.Arrow != token.NoPos && b.Arrow != token.NoPos)
